@@ -5,6 +5,7 @@ import SJ.Props.StreamTyped
 import SJ.Props.C13Raw
 import SJ.Props.C13Kind
 import SJ.Props.C13Stream
+import SJ.Props.TypedFaultBound
 #print axioms SJ.Props.C13.c13_read
 #print axioms SJ.Props.C13.c13_read_error_class
 #print axioms SJ.Props.Typed.c13_typed_fault
@@ -34,3 +35,4 @@ import SJ.Props.C13Stream
 #print axioms SJ.Props.C13.c13_item_kind
 #print axioms SJ.Props.C13Stream.c13_stream_io_once
 #print axioms SJ.Props.C13Stream.c13_stream_error_once
+#print axioms SJ.Props.TypedFaultBound.c13_typed_fault_bounded
